@@ -19,6 +19,13 @@ class Unknown(Exception):
     pass
 
 
+def norm_name(fn):
+    try:
+        return ast.unparse(fn)
+    except Exception:
+        return ""
+
+
 _SET_METHODS = {
     "difference": lambda a, b: set(a) - set(b),
     "symmetric_difference": lambda a, b: set(a) ^ set(b),
@@ -99,6 +106,10 @@ def evaluate(node: ast.AST, lookup, bound: dict | None = None):
                     return a ^ b
                 if isinstance(n.op, ast.Mult):
                     return a * b
+                if isinstance(n.op, ast.Div) and isinstance(a, (int, float)) and isinstance(b, (int, float)) and b != 0:
+                    return a / b
+                if isinstance(n.op, ast.Pow) and isinstance(a, (int, float)) and isinstance(b, (int, float)):
+                    return a ** b
             except TypeError as e:
                 raise Unknown(str(e))
             raise Unknown(ast.dump(n.op))
@@ -175,6 +186,28 @@ def evaluate(node: ast.AST, lookup, bound: dict | None = None):
                 return _SET_METHODS[fn.attr](_keys(ev(fn.value)), _keys(ev(n.args[0])))
             if isinstance(fn, ast.Attribute) and fn.attr == "keys" and not n.args:
                 return _keys(ev(fn.value))
+            if isinstance(fn, ast.Attribute) and fn.attr in ("capitalize", "lower", "upper", "strip", "title", "casefold", "swapcase") and not n.args and not n.keywords:
+                v = ev(fn.value)
+                if isinstance(v, str):
+                    return getattr(v, fn.attr)()
+                raise Unknown(f"str method on {v!r}")
+            if isinstance(fn, ast.Attribute) and fn.attr in ("startswith", "endswith", "isalpha", "isdigit", "isupper", "islower") and not n.keywords:
+                v = ev(fn.value)
+                args = [ev(a) for a in n.args]
+                if isinstance(v, str) and all(isinstance(a, (str, tuple, list)) for a in args):
+                    return getattr(v, fn.attr)(*[tuple(a) if isinstance(a, list) else a for a in args])
+                raise Unknown(f"str method on {v!r}")
+            if isinstance(fn, ast.Attribute) and norm_name(fn) == "math.isclose" and 2 <= len(n.args):
+                import math as _m
+                a, b = ev(n.args[0]), ev(n.args[1])
+                kw = {k.arg: ev(k.value) for k in n.keywords}
+                if isinstance(a, (int, float)) and isinstance(b, (int, float)) and set(kw) <= {"rel_tol", "abs_tol"}:
+                    return _m.isclose(a, b, **kw)
+                raise Unknown("math.isclose")
+            if isinstance(fn, ast.Name) and fn.id in ("abs", "float", "round", "min", "max") and not n.keywords:
+                args = [ev(a) for a in n.args]
+                if all(isinstance(a, (int, float)) for a in args) and args:
+                    return {"abs": abs, "float": float, "round": round, "min": min, "max": max}[fn.id](*args)
             raise Unknown(f"call `{ast.unparse(n)[:60]}`")
         raise Unknown(f"`{ast.unparse(n)[:60]}`")
 
